@@ -147,12 +147,21 @@ TLog(e) ==
      \o ElemChk("C02.log.exp.lib", g, back, Mg, t)
 
 \* C03
+\* hat, vee, ad are linear and the bracket is bilinear in the tangent vectors: for arguments below 1 the error is
+\* measured against the size of the arguments (a result that is zero, or off by a fixed absolute amount, for tiny
+\* arguments is as wrong as it would be for large ones)
+HomM(clause, X, Y, scale, tol) ==
+  IF RLeq(R1, scale) THEN <<>> ELSE Chk(clause, RLeq(MaxAbsDiff(X, Y), RMul(tol, scale)), MaxAbsDiff(X, Y), RMul(tol, scale))
+HomV(clause, x, y, scale, tol) ==
+  IF RLeq(R1, scale) THEN <<>> ELSE Chk(clause, RLeq(VMaxAbsDiff(x, y), RMul(tol, scale)), VMaxAbsDiff(x, y), RMul(tol, scale))
 THatOp(e) ==
-  LET g == e.g  a == V(e.a)  t == TolE(e, TolC03(e.sc))
+  LET g == e.g  a == V(e.a)  t == TolE(e, TolC03(e.sc))  na == VMaxAbs(a)
   IN MatChk("C03.hatvee.hat", M(e.out), GHat(g, a), t) \o VecChk("C03.hatvee.vee", V(e.vee), a, t)
+     \o HomM("C03.hatvee.hat.small", M(e.out), GHat(g, a), na, t) \o HomV("C03.hatvee.vee.small", V(e.vee), a, na, t)
 TVeeLin(e) == VecChk("C03.hatvee.linear", V(e.out), VAdd(V(e.a), V(e.b)), TolC03(e.sc))
 TAd(e) == MatChk("C03.Ad", M(e.out), XAd(e.g, V(e.a)), TolE(e, TolC03(e.sc)))
 Tad(e) == MatChk("C03.ad", M(e.out), Xad(e.g, V(e.a)), TolE(e, TolC03(e.sc)))
+          \o HomM("C03.ad.small", M(e.out), Xad(e.g, V(e.a)), VMaxAbs(V(e.a)), TolE(e, TolC03(e.sc)))
 TBracket(e) ==
   LET g == e.g  a == V(e.a)  b == V(e.b)  c == V(e.c)  t == TolC03(e.sc)
       Y == XBracket(g, a, b)
@@ -162,6 +171,9 @@ TBracket(e) ==
   IN VecChk("C03.ad.bracket", V(e.out), Y, t)
      \o VecChk("C03.ad.adab", V(e.adab), Y, t)
      \o VecChk("C03.jacobi.antisym", V(e.rev), VNeg(Y), t)
+     \o (LET sab == RMul(RFromInt(Dof(g)), RMul(VMaxAbs(a), VMaxAbs(b)))
+         IN HomV("C03.ad.bracket.small", V(e.out), Y, sab, t) \o HomV("C03.ad.adab.small", V(e.adab), Y, sab, t)
+            \o HomV("C03.jacobi.antisym.small", V(e.rev), VNeg(Y), sab, t))
      \o Chk("C03.jacobi", RLeq(VMaxAbs(j), RMul(t, scale)), VMaxAbs(j), RMul(t, scale))
 TAdHom(e) == MatChk("C03.hom.product", M(e.out), MMul(M(e.A1), M(e.A2)), TolC03(e.sc))
 TAdExp(e) == MatChk("C03.hom.exp", M(e.out), ExpM(M(e.ad)), TolC02(e.sc, FALSE))
